@@ -314,7 +314,9 @@ class Vector():
 			a = a.to_object()            # now object vector
 			a[2] = "ryan"                # allowed - can mix types
 		"""
-		return Vector(list(self._underlying), dtype=object, name=self._name, as_row=self._display_as_row)
+		# Keep the nullable flag truthful: an object vector that holds None is <object?>
+		nullable = any(x is None for x in self._underlying)
+		return Vector(list(self._underlying), dtype=DataType(object, nullable=nullable), name=self._name, as_row=self._display_as_row)
 
 	def alias(self, new_name):
 		"""
